@@ -147,12 +147,18 @@ type BlockWise[C Client] struct {
 type messageGuard struct {
 	*pool.Message
 	*semaphore.Weighted
+	// ctx is the context waiting for the guard is bound to: the one the message was created with.
+	// It is kept here because the message itself goes to the caller once the body is complete - and
+	// back to the pool when the caller is done with it - while a receive loop that looked the guard
+	// up earlier may only now be about to wait for it.
+	ctx context.Context
 }
 
 func newRequestGuard(request *pool.Message) *messageGuard {
 	return &messageGuard{
 		Message:  request,
 		Weighted: semaphore.NewWeighted(1),
+		ctx:      request.Context(),
 	}
 }
 
@@ -729,7 +735,7 @@ func (b *BlockWise[C]) getCachedReceivedMessage(mg *messageGuard, r *pool.Messag
 		return fmt.Errorf("processReceivedMessage: cannot lock message: %w", err)
 	}
 	if mg != nil {
-		errA := mg.Acquire(mg.Context(), 1)
+		errA := mg.Acquire(mg.ctx, 1)
 		if errA != nil {
 			return nil, nil, cannotLockError(errA)
 		}
@@ -759,7 +765,7 @@ func (b *BlockWise[C]) getCachedReceivedMessage(mg *messageGuard, r *pool.Messag
 	msg.SetBody(memfile.New(make([]byte, 0, 1024)))
 	msg.SetCode(r.Code())
 	mg = newRequestGuard(msg)
-	errA := mg.Acquire(mg.Context(), 1)
+	errA := mg.Acquire(mg.ctx, 1)
 	if errA != nil {
 		return nil, nil, cannotLockError(errA)
 	}
@@ -777,7 +783,7 @@ func (b *BlockWise[C]) getCachedReceivedMessage(mg *messageGuard, r *pool.Messag
 			closeFn()
 			return nil, nil, errors.New("request was already stored in cache")
 		}
-		errA := mg.Acquire(mg.Context(), 1)
+		errA := mg.Acquire(mg.ctx, 1)
 		if errA != nil {
 			closeFn()
 			return nil, nil, cannotLockError(errA)
